@@ -37,6 +37,8 @@ type entry struct {
 	Once bool
 	// MainOnly: only meaningful in the main file.
 	MainOnly bool
+	// TopInclude: the declaration part is a top-level include statement.
+	TopInclude bool
 }
 
 var catalogue = []entry{
@@ -78,7 +80,7 @@ var catalogue = []entry{
 		Decl: "backend ut@N@ {\n  .host = 1;\n}", Stmt: "if (req.http.P@N@) {\n  set req.backend = ut@N@;\n}", IgnAt: "decl"},
 	{ID: "E-acl-cidr", Sev: sevE, Rule: "acl/syntax", Scope: "any",
 		Decl: "acl bad_a@N@ {\n  \"10.0.0.0\"/99;\n}", Stmt: "if (client.ip ~ bad_a@N@) {\n  set req.http.X-D@N@ = \"1\";\n}", IgnAt: "decl"},
-	{ID: "E-include-missing", Sev: sevE, Rule: "include/module-load-failed", Scope: "any", Decl: `include "nosuch@N@";`, MainOnly: true},
+	{ID: "E-include-missing", Sev: sevE, Rule: "include/module-load-failed", Scope: "any", Decl: `include "nosuch@N@";`, MainOnly: true, TopInclude: true},
 	// ---------------------------------------------------------------- ERROR, no rule name
 	{ID: "E0-readonly", Sev: sevE, Rule: "", Scope: "any", Stmt: `unset req.url;`, IgnAt: "stmt", Snippet: true},
 	{ID: "E0-protected", Sev: sevE, Rule: "", Scope: "any", Stmt: `set req.http.Fastly-FF = "x";`, IgnAt: "stmt", Snippet: true},
